@@ -175,7 +175,138 @@ def dns_name(ctx):
     return out
 
 
+def sni_host_name(ctx):
+    """TlsExtensionServerNameClient: the host name travels as an IDNA A-label string.  The codec of the standard library
+    decodes names it refuses to encode again (an empty label, a label of more than 63 octets), so a parser that only decodes
+    lets through objects its composer cannot write.  _parse (from the list length on) and compose are evaluated from their own
+    statements with the real codec on a table of names: whatever is accepted must compose, to bytes that read as the same name."""
+    if 'sni' in _CACHE:
+        return _CACHE['sni']
+    from .miniexec import Evaluator, Native, NativeError, Obj, Raised, Unsupported, class_call_hook, exception_values
+    out = {'evaluated': False, 'why': '', 'runs': 0, 'problems': {}, 'acceptance': {}}
+    _CACHE['sni'] = out
+    c = ctx.model.try_cls('TlsExtensionServerNameClient')
+    fp = c.methods.get('_parse') if c is not None else None
+    fc = c.methods.get('compose') if c is not None else None
+    if fp is None or fc is None:
+        out['why'] = 'TlsExtensionServerNameClient._parse / compose not found'
+        return out
+
+    class NotEnoughData(NativeError):
+        pass
+
+    class Parser(Native):
+        def __init__(self, data):
+            self.data, self.parsed_length, self.values = bytes(data), 0, {}
+
+        def take(self, n):
+            have = len(self.data) - self.parsed_length
+            if have < n:
+                raise NotEnoughData(n - have)
+            raw = self.data[self.parsed_length:self.parsed_length + n]
+            self.parsed_length += n
+            return raw
+
+        def parse_numeric(self, name, size, converter=None):
+            self.values[name] = int.from_bytes(self.take(size), 'big')
+
+        def parse_parsable(self, name, cls_):
+            n = int.from_bytes(self.take(2), 'big')
+            self.values[name] = list(self.take(n))          # an opaque vector: a sequence of octets
+
+        def parse_bytes(self, name, size):
+            n = int.from_bytes(self.take(size), 'big')
+            self.values[name] = bytearray(self.take(n))
+
+        def __getitem__(self, name):
+            return self.values[name]
+
+    class Composer(Native):
+        def __init__(self):
+            self.out = bytearray()
+
+        def compose_numeric(self, value, size):
+            self.out += int(value).to_bytes(size, 'big')
+
+        def compose_bytes(self, value, size):
+            self.out += len(value).to_bytes(size, 'big') + bytes(value)
+
+        def compose_raw(self, value):
+            self.out += bytes(value)
+
+        @property
+        def composed_length(self):
+            return len(self.out)
+
+        @property
+        def composed_bytes(self):
+            return bytearray(self.out)
+
+        composed = composed_bytes
+    made = {}
+    exc = exception_values('NotEnoughData', 'InvalidValue', 'TooMuchData', 'InvalidType')
+
+    def extra(n, ev):
+        d = ast.unparse(n.func)
+        if d.endswith('._parse_header') or d.endswith('._check_header'):
+            return Parser(ev.ev(n.args[0]))
+        if d == 'ComposerBinary':
+            return Composer()
+        if d.endswith('._compose_header'):
+            return bytearray(b'\x00\x00' + int(ev.ev(n.args[0])).to_bytes(2, 'big'))
+        if d in ('cls', 'TlsExtensionServerNameClient') and n.args:
+            made['host_name'] = ev.ev(n.args[0])
+            return ('sni', made['host_name'])
+        return exc(n, ev)
+
+    def names(name):
+        raise Unsupported('free name ' + name)
+    hook = class_call_hook(c, extra, ctx.model)
+    nh = hook.name_hook_for(c.module, names)
+
+    def payload(name):
+        entry = b'\x00' + len(name).to_bytes(2, 'big') + name
+        return len(entry).to_bytes(2, 'big') + entry
+    NAMES = [(b'example.com', 'plain'), (b'a' * 63 + b'.com', 'plain'), (b'xn--bcher-kva.example', 'plain'), (b'EXAMPLE.com', 'plain'), (b'com.', 'plain'),
+             (b'a' * 64 + b'.com', 'long-label'), (b'a..com', 'empty-label'), (b'.com', 'empty-label'), (b'.', 'empty-label')]
+    try:
+        for name, key in NAMES:
+            out['runs'] += 1
+            made.clear()
+            try:
+                Evaluator({'cls': 'cls', 'parsable': payload(name)}, hook, nh).function(fp.node)
+            except Raised as e:
+                if key == 'plain':
+                    out['acceptance'].setdefault(key, 'the host name %r is refused (%s)' % (name[:24], e.what[:60]))
+                continue
+            host = made.get('host_name')
+            if not isinstance(host, str):
+                raise Unsupported('host name is %r' % (host,))
+            me = Obj(host_name=host, name_type=0)
+            try:
+                again = Evaluator({'self': me}, hook, nh).function(fc.node)
+            except Raised as e:
+                out['acceptance'].setdefault(key, 'the host name %r is accepted (as %r) and cannot be composed: %s' % (name[:24], host[:24], e.what[:70]))
+                continue
+            body = bytes(again)[4:]
+            made.clear()
+            try:
+                Evaluator({'cls': 'cls', 'parsable': body}, hook, nh).function(fp.node)
+            except Raised as e:
+                out['acceptance'].setdefault(key, 'the host name %r is composed as %s..., which is refused (%s)' % (name[:24], body[:12].hex(), e.what[:60]))
+                continue
+            if made.get('host_name') != host:
+                out['acceptance'].setdefault(key, 'the host name %r is read as %r, composed and read back as %r' % (name[:24], host[:24], made.get('host_name')))
+    except Unsupported as e:
+        out['why'] = str(e)
+        return out
+    out['evaluated'] = True
+    return out
+
+
 EVALUATED_CODECS = {'DnsNameUncompressed': dns_name}
+# codecs whose decode side accepts more than the encode side writes: accepted input must be composable (C05.R1)
+ACCEPTANCE_CODECS = {'DnsNameUncompressed': dns_name, 'TlsExtensionServerNameClient': sni_host_name}
 
 
 def _binary_env(ctx, cls, made):
